@@ -2,7 +2,7 @@
    Property theorems only; proofs are in ProofC01.v and ProofSession.v.  sh_words (the shell's word splitting) and
    tty_echo (the line discipline's echo) are environment models, validated against the real bash, dash and a real
    pty on every run (see Sh.v). *)
-From TV Require Import Base Utf8 Regex Channel ChannelLemmas Hush Session ProofSession Sh ProofC01 ProofC09b ProofC04b ProofInit.
+From TV Require Import Base Utf8 Regex Channel ChannelLemmas Hush Session ProofSession Sh ProofC01 ProofC09b ProofC04b ProofInit ProofC18c ProofInitRetry.
 
 (* (1) no word splitting, globbing, expansion or injection: the shell splits the line tbot sends into exactly the
        given strings, one argument per string -- for every list of strings without NUL *)
@@ -190,3 +190,45 @@ Theorem C01_init_shell_ok :
              insync c' /\ prompt c' = Some (SLit TBOT_PROMPT) /\ blacklist c' = bl.
 Proof. exact init_shell_ok. Qed.
 Print Assumptions C01_init_shell_ok.
+
+(* (7) the probe loop of util.wait_for_shell with retries: the console answers none of the first k probes (what it
+       prints during each wait arrives within that wait and does not contain the answer) and answers the next one in
+       time -- the loop returns at the first occurrence of the answer in the (k+1)-th reaction, having written exactly
+       k+1 probe lines, for EVERY fragmentation and timing of all k+1 reactions (first wait tmo, then 3 s each) *)
+Theorem C01_wait_for_shell_retries :
+  forall (sil : list stage) fuel tmo c (st : stage) (sts : list stage) a,
+  insync c -> slow c = None -> (0 < tmo)%Z ->
+  any_in (blacklist c) (PROBE ++ [CR]) = false ->
+  silent_rounds tmo sil -> wf_pend st ->
+  find_sub PROBE_ANSWER (cat st) = Some a ->
+  a + length PROBE_ANSWER <= ready_before (last_tmo tmo sil) st ->
+  length sil < fuel ->
+  exists c' data,
+    wait_for_shell fuel tmo (sil ++ st :: sts) c = (IOk, c', sts) /\
+    quiet c' /\ cat st = data ++ cpend c' /\
+    firstn (a + length PROBE_ANSWER) data = firstn a (cat st) ++ PROBE_ANSWER /\
+    wr (io c') = wr (io c) ++ concat (repeat (PROBE ++ [CR]) (S (length sil))) /\
+    prompt c' = prompt c /\ blacklist c' = blacklist c.
+Proof. exact wait_for_shell_retries. Qed.
+Print Assumptions C01_wait_for_shell_retries.
+
+(* (8) ... and the whole of _init_shell behind it *)
+Theorem C01_init_shell_ok_after_retries :
+  forall (sil : list stage) fuel tmo bl cfg c (st0 st_ps1 : stage) (stgs : list stage) (st_san : stage) a noise1,
+  insync c -> slow c = None -> (0 < tmo)%Z ->
+  any_in (blacklist c) (PROBE ++ [CR]) = false ->
+  silent_rounds tmo sil -> wf_pend st0 ->
+  find_sub PROBE_ANSWER (cat st0) = Some a ->
+  a + length PROBE_ANSWER <= ready_before (last_tmo tmo sil) st0 ->
+  length sil < fuel ->
+  any_in bl (PS1_LINE ++ [CR]) = false ->
+  Forall (fun l => any_in bl (l ++ [CR]) = false) cfg ->
+  any_in bl (SANITY ++ [CR]) = false ->
+  wf_pend st_ps1 -> cat st_ps1 = noise1 ++ TBOT_PROMPT ->
+  prompt_only_at_end TBOT_PROMPT (skipn (a + length PROBE_ANSWER) (cat st0) ++ noise1) ->
+  Forall2 (fun l stg => wf_pend stg /\ exists noise, cat stg = noise ++ TBOT_PROMPT /\ prompt_only_at_end TBOT_PROMPT noise) cfg stgs ->
+  wf_pend st_san -> cat st_san = tty_echo false (SANITY ++ [CR]) ++ onlcr SANITY_ANSWER ++ TBOT_PROMPT ->
+  exists c', init_shell fuel tmo bl PS1_LINE cfg (sil ++ st0 :: st_ps1 :: stgs ++ [st_san]) c = (IOk, c', []) /\
+             insync c' /\ prompt c' = Some (SLit TBOT_PROMPT) /\ blacklist c' = bl.
+Proof. exact init_shell_ok_after_retries. Qed.
+Print Assumptions C01_init_shell_ok_after_retries.
